@@ -549,7 +549,7 @@ fn parsed_stream(cx: &mut Ctx, rng: &mut Rng, n: usize, thorough: bool, stream: 
                         cx.fail(stream, "C03/C10: both pipelines agree but not on the documented value", format!("[{}] {:?}", fm.name, s), want.clone(), cd.clone(), None);
                     }
                     if let (Ok(Some(a)), Ok(Some(b))) = (&direct, &folded) {
-                        if a != b {
+                        if cd == cf && a != b {
                             cx.fail(stream, "C03: values compare unequal with == although their canonical forms agree", format!("[{}] {:?}", fm.name, s), cd, cf, None);
                         }
                     }
@@ -587,6 +587,19 @@ pub fn run_c03(o: &Opts) -> Report {
         }
     }
     parsed_stream(&mut cx, &mut rng, o.n, o.thorough, "parsed", true);
+    // probes OUTSIDE the property's domain (texts the enum formatter cannot emit): where the two pipelines
+    // are allowed to differ.  Recorded in the histogram (and compared with the model), never a failure.
+    for (fi, s) in [(0usize, "(--, A, B)"), (0, "(-, A, B, C)"), (0, "(~, A)"), (0, "(--, A)"), (0, "(/, R, _, _)"), (0, "(/, _)"), (0, "{A, A}"), (0, "<A --> B>. %1.0;0.5;0.3%"), (0, "+00000000000000000000007"), (0, "+18446744073709551616"), (0, "A. :!+5:"), (0, "A. %1e0%"), (0, "A. %-0%"), (0, "$-0$ A.")] {
+        let fm = &formats()[fi];
+        let direct = real_parse(fm.e, s);
+        let folded = match guard(|| fm.l.parse(s).ok()) {
+            Some(Some(lv)) => cx.fold_case(fm, &lv, "off-domain", false),
+            Some(None) => Ok(None),
+            None => Err(()),
+        };
+        let same = canon_pr(&direct) == canon_pr(&folded);
+        cx.rep.hist.add(format!("off-domain:{}:enum={},lex+fold={}{}", s, pr_tag(&direct), pr_tag(&folded), if same { "" } else { ":DIFFERENT" }));
+    }
     let cases = std::mem::take(&mut cx.cases);
     finish(o, "C03", rep, cases)
 }
